@@ -12,3 +12,4 @@ pub mod eip712;
 pub mod grammar;
 pub mod nfkd;
 pub mod selftest;
+pub mod txjson;
